@@ -320,6 +320,8 @@ def to_lz4(data, rng=None, block_max_id=4, chunk=None, stored=True, content_chec
         c = data[i:i + chunk]
         i += len(c)
         use_stored = stored if rng is None else (rng.random() < 0.5 if stored == "mix" else stored)
+        if not use_stored and len(c) + len(c) // 255 + 16 > maxsz:
+            use_stored = True   # a "compressed" block may not exceed the frame's maximum block size
         if use_stored:
             out += struct.pack("<I", len(c) | 0x80000000) + c
             blk = c
